@@ -142,7 +142,9 @@ class _ServerInternalRunAdapter(BaseInternalRunAdapterDecorator):
                     )
 
                 envelope = EventEnvelopeWithMetadata.from_event(event)
-                await self._store.append_event(self.run_id, envelope)
+                await self._runtime._retry_store_write(
+                    lambda: self._store.append_event(self.run_id, envelope)
+                )
 
             # Always forward to inner adapter (e.g. idle detection, DBOS stream)
             await super().write_to_event_stream(event)
